@@ -850,7 +850,9 @@ package flags
 //@   pure
 
 //@ pure func inChoices(o *Option, v string) bool = exists(i, 0, len(o.Choices), o.Choices[i] == v)
-//@ pure func clearsFirst(o *Option) bool = (o.value.Type().Kind() == reflect.Map || o.value.Type().Kind() == reflect.Slice) && o.clearReferenceBeforeSet
+// a collection option (slice or map, also behind pointers: convert follows pointers and appends / inserts there too)
+//@ pure func collType(t reflect.Type) bool = ite(t.Kind() == reflect.Ptr, collType(t.Elem()), t.Kind() == reflect.Map || t.Kind() == reflect.Slice)
+//@ pure func clearsFirst(o *Option) bool = collType(o.value.Type()) && o.clearReferenceBeforeSet
 
 // Set: one occurrence of the option with textual value *value (nil: none).
 // The field is emptied first iff it is a slice/map and this is the first Set
@@ -868,7 +870,9 @@ package flags
 //@   let k0 := ncalls(Option.call)
 //@   let clears := clearsFirst(option)
 //@   let rejected := len(option.Choices) != 0 && value != nil && !inChoices(option, *value)
-//@   loop 1 invariant found == exists(i, 0, idx_1, option.Choices[i] == *value)
+//@   loop 1 invariant use(wf_type, tp) && unfold(collType(tp)) && collType(tp) == collType(option.value.Type())
+//@   loop 1 decreases tdepth(tp)
+//@   loop 2 invariant found == exists(i, 0, idx_2, option.Choices[i] == *value)
 //@   ensures[C05,C06] option.isSet && option.preventDefault && !option.clearReferenceBeforeSet
 //@   ensures[C01,C05] ncalls(Option.empty) == e0 + ite(clears, 1, 0) && (clears ==> callarg(Option.empty, e0, 0) == option)
 //@   ensures[C11] rejected ==> isTyped(err, ErrInvalidChoice) && ncalls(convert) == c0 && ncalls(Option.call) == k0
